@@ -422,4 +422,24 @@ theorem getUniqueAux_nodup (xs acc : List Rat) (h : acc.Nodup) : (getUniqueAux a
 theorem getUnique_nodup (xs : List Rat) : (getUnique xs).Nodup :=
   isort_nodup _ (getUniqueAux_nodup xs [] List.nodup_nil)
 
+theorem cnt_insSorted (a : Rat) (l : List Rat) (x : Rat) : cnt (insSorted a l) x = cnt (a :: l) x := by
+  induction l with
+  | nil => rfl
+  | cons b l ih =>
+    simp only [insSorted]
+    split
+    · rfl
+    · simp only [cnt, List.filter_cons] at *
+      by_cases hb : (b == x) = true <;> by_cases ha : (a == x) = true <;> simp [hb, ha] at * <;> omega
+
+/-- sorting does not change any multiplicity -/
+theorem cnt_isort (l : List Rat) (x : Rat) : cnt (isort l) x = cnt l x := by
+  induction l with
+  | nil => rfl
+  | cons a l ih =>
+    simp only [isort, cnt_insSorted]
+    simp only [cnt, List.filter_cons] at *
+    by_cases ha : (a == x) = true <;> simp [ha, ih]
+
+
 end NV
